@@ -490,7 +490,8 @@ func OracleInputs(prop string, v *View) []Violation {
 	prog := v.C.Program
 	// a stage input (or output) that the engine tried to evaluate before everything it refers to had
 	// been produced shows up as an evaluation failure the model does not predict
-	if c := v.C0; c != nil && c.Returned && c.Err != "" && strings.Contains(c.Err, "resolve expressions") && strings.Contains(c.Err, "not found") && len(v.Facts.RunError) == 0 && !c.Cancelled {
+	if c := v.C0; c != nil && c.Returned && c.Err != "" && strings.Contains(c.Err, "resolve expressions") && strings.Contains(c.Err, "not found") && len(v.Facts.RunError) == 0 && !c.Cancelled &&
+		!anyGiveUpWithHeldUpGoroutine(v.R) { // (a loop that failed because an item's detector gave up over a held-up goroutine is C09's finding)
 		out = append(out, viol(prop, "evaluated-before-dependency-produced", "", "the engine evaluated expressions before what they refer to existed (the model finds no run-time fault): %s", c.Err))
 	}
 	for src, evs := range v.Starts {
